@@ -322,9 +322,28 @@ def repeated_rule_scenarios(rng, tag, n):
     return out
 
 
+def space_at_separator(rng, p):
+    """white space right next to the = / * separator of one argument (cmd= reload, cmd-arg =version, service= shell)"""
+    args = p.get("args") or []
+    idx = [i for i, a in enumerate(args) if (61 in a or 42 in a)]
+    if not idx:
+        return p
+    i = rng.choice(idx)
+    a = list(args[i])
+    k = min([a.index(c) for c in (61, 42) if c in a])
+    ws = rng.choice([[32], [32], [9], [32, 32]])
+    a = a[:k + 1] + ws + a[k + 1:] if rng.random() < 0.7 else a[:k] + ws + a[k:]
+    if len(a) <= 255:
+        args[i] = a
+    return p
+
+
 def author_script(rng, cfg, scope, tag):
     if rng.random() < 0.6:
-        return [(directed_author(rng, cfg, scope), rng.randint(0, 1), [])]
+        p = directed_author(rng, cfg, scope)
+        if rng.random() < 0.1:
+            p = space_at_separator(rng, p)
+        return [(p, rng.randint(0, 1), [])]
     name = rng.choice(["alice", "bob", "frank", "carol", "erin", "nobody"])
     if rng.random() < 0.6:
         cmd = rng.choice(CMDS + ["sho"])
